@@ -12,6 +12,12 @@ NOT_APPLICABLE = {
 }
 
 CLAIMS = {
+    "C14": {
+        "text": "Decides ordering/ownership clauses, not leak-freedom for every failing allocation: (R14.1) in each of the 188 validating public mutators of the domains and solvers no write to the receiver lies on a CFG path to a validation throw of the same function (rejected calls change nothing); (R14.2) the result of every new / clone() / allocator allocate() (96 sites) is owned at once — returned, handed to a guard or callee, stored in an already constructed owner — or, while held in a raw local pointer or in a raw member of an object under construction (including what a same-class helper such as init() allocated for a constructor), is followed by no may-throw step until it is handed over, guarded or protected by try/catch(...){release; throw;}; (R14.3) every cycle of the nine loops that hold a maybe_abandon() checkpoint passes one and each anchor function keeps its confirmed number of checkpointed loops. R14.4 (cached results are handed out only after a successful solve) is decided by the C06/C07 checks. Leak-freedom under the k-th allocation failure deep inside call chains and the strong guarantee after bad_alloc in the middle of a mutator are NOT decided.",
+        "design_ref": "DESIGN.md §3 C14",
+        "note": "may-throw is a may-analysis over the parsed program with a reasoned nothrow name list (accessors, setters of raw pointers, C library calls); member templates are judged on the instantiations of drivers/domains.cc",
+        "technique": "path rules over clang CFG (write-reaches-throw, allocation-reaches-may-throw before hand-over), loop-cycle cut rule, may-throw call-graph inference",
+    },
     "C10": {
         "text": "Decides four structural clauses, not the entailment arithmetic: (R10.1) in every transformer of Partially_Reduced_Product each statement block applies the same operation with corresponding arguments to both components, in every branch (recycle/refine pairs allowed); (R10.2) the ten predicates combine the component answers with the connective that is sound for an intersection; (R10.3) inside the four reductions a component is changed only by a meet, a nested reduction or a swap with a freshly built EMPTY element; (R10.4) the symmetric halves of Congruences_Reduction and Shape_Preserving_Reduction are mirror images modulo d1 <-> d2. Necessary for 'transformers contain the exact image of the intersection' and 'reductions never lose the intersection'. That the constraints a reduction transfers are entailed by the partner (frequency / congruence arithmetic) is numeric and NOT decided.",
         "design_ref": "DESIGN.md §3 C10",
